@@ -372,8 +372,8 @@ func (g *gen) commandStep() (omap, umap) {
 		usedSrc := map[string]bool{}
 		for i := 0; i < n; i++ {
 			ps := pluginSources[r.Intn(len(pluginSources))]
-			if usedSrc[ps.in] {
-				continue
+			if usedSrc[ps.in] && form == 2 {
+				continue // one mapping cannot hold the same key twice; a list may name a plugin twice
 			}
 			usedSrc[ps.in] = true
 			var cfg any
